@@ -34,7 +34,7 @@
 (* re-check `ended`; F8 share greets a sink before a late upstream greeted. *)
 (* Repaired in the code and therefore in the model: F4 (merge disposes a    *)
 (* late greeter), F5 (combine stores before counting), F6 (take claims its  *)
-(* slot atomically).  file:line references are to the pinned commit; lines  *)
+(* slot atomically), F9 (take is over when its source ends by itself).  file:line references are to the pinned commit; lines  *)
 (* of merge.rs / take.rs / combine.rs moved by up to 12 with those commits. *)
 (***************************************************************************)
 EXTENDS Integers, Sequences, FiniteSets, TLC
@@ -648,6 +648,10 @@ TK5:
       } else if (m.t = "P") {
         Panic();
       } else {
+        \* Error | Terminate from the source (fix F9): take is over, its own completion must not run
+tk_src_end_st:
+        st[to.n][to.s].end := TRUE;
+TK6a:
         call Deliver("S", S(to).sink, m);
 TK6:
         goto Ret;
@@ -2264,71 +2268,30 @@ DDisp(self) == /\ pc[self] = "DDisp"
                                                                                                                                                          THEN /\ st' = [st EXCEPT ![to[self].n][to[self].s].utb = m[self].tb]
                                                                                                                                                               /\ pc' = [pc EXCEPT ![self] = "TK3"]
                                                                                                                                                               /\ UNCHANGED << obs, 
-                                                                                                                                                                              panicked, 
-                                                                                                                                                                              stack, 
-                                                                                                                                                                              fr, 
-                                                                                                                                                                              to, 
-                                                                                                                                                                              m, 
-                                                                                                                                                                              lg, 
-                                                                                                                                                                              sx, 
-                                                                                                                                                                              jx, 
-                                                                                                                                                                              ch, 
-                                                                                                                                                                              lv, 
-                                                                                                                                                                              snap >>
+                                                                                                                                                                              panicked >>
                                                                                                                                                          ELSE /\ IF m[self].t = "D"
                                                                                                                                                                     THEN /\ pc' = [pc EXCEPT ![self] = "tk_taken_fu"]
                                                                                                                                                                          /\ UNCHANGED << obs, 
-                                                                                                                                                                                         panicked, 
-                                                                                                                                                                                         stack, 
-                                                                                                                                                                                         fr, 
-                                                                                                                                                                                         to, 
-                                                                                                                                                                                         m, 
-                                                                                                                                                                                         lg, 
-                                                                                                                                                                                         sx, 
-                                                                                                                                                                                         jx, 
-                                                                                                                                                                                         ch, 
-                                                                                                                                                                                         lv, 
-                                                                                                                                                                                         snap >>
+                                                                                                                                                                                         panicked >>
                                                                                                                                                                     ELSE /\ IF m[self].t = "P"
                                                                                                                                                                                THEN /\ obs' = LogO(obs \o [q \in 1..OpenCount(obs, 1, 0) |-> RetEv(ThOf(self))],
                                                                                                                                                                                                    Ev("panic", ThOf(self), "", "", "", 0))
                                                                                                                                                                                     /\ panicked' = TRUE
                                                                                                                                                                                     /\ pc' = [pc EXCEPT ![self] = "Halt"]
-                                                                                                                                                                                    /\ UNCHANGED << stack, 
-                                                                                                                                                                                                    fr, 
-                                                                                                                                                                                                    to, 
-                                                                                                                                                                                                    m, 
-                                                                                                                                                                                                    lg, 
-                                                                                                                                                                                                    sx, 
-                                                                                                                                                                                                    jx, 
-                                                                                                                                                                                                    ch, 
-                                                                                                                                                                                                    lv, 
-                                                                                                                                                                                                    snap >>
-                                                                                                                                                                               ELSE /\ /\ fr' = [fr EXCEPT ![self] = "S"]
-                                                                                                                                                                                       /\ m' = [m EXCEPT ![self] = m[self]]
-                                                                                                                                                                                       /\ stack' = [stack EXCEPT ![self] = << [ procedure |->  "Deliver",
-                                                                                                                                                                                                                                pc        |->  "TK6",
-                                                                                                                                                                                                                                lg        |->  lg[self],
-                                                                                                                                                                                                                                sx        |->  sx[self],
-                                                                                                                                                                                                                                jx        |->  jx[self],
-                                                                                                                                                                                                                                ch        |->  ch[self],
-                                                                                                                                                                                                                                lv        |->  lv[self],
-                                                                                                                                                                                                                                snap      |->  snap[self],
-                                                                                                                                                                                                                                fr        |->  fr[self],
-                                                                                                                                                                                                                                to        |->  to[self],
-                                                                                                                                                                                                                                m         |->  m[self] ] >>
-                                                                                                                                                                                                                            \o stack[self]]
-                                                                                                                                                                                       /\ to' = [to EXCEPT ![self] = S(to[self]).sink]
-                                                                                                                                                                                    /\ lg' = [lg EXCEPT ![self] = FALSE]
-                                                                                                                                                                                    /\ sx' = [sx EXCEPT ![self] = 0]
-                                                                                                                                                                                    /\ jx' = [jx EXCEPT ![self] = 0]
-                                                                                                                                                                                    /\ ch' = [ch EXCEPT ![self] = ""]
-                                                                                                                                                                                    /\ lv' = [lv EXCEPT ![self] = 0]
-                                                                                                                                                                                    /\ snap' = [snap EXCEPT ![self] = <<>>]
-                                                                                                                                                                                    /\ pc' = [pc EXCEPT ![self] = "DStart"]
+                                                                                                                                                                               ELSE /\ pc' = [pc EXCEPT ![self] = "tk_src_end_st"]
                                                                                                                                                                                     /\ UNCHANGED << obs, 
                                                                                                                                                                                                     panicked >>
                                                                                                                                                               /\ st' = st
+                                                                                                                                                   /\ UNCHANGED << stack, 
+                                                                                                                                                                   fr, 
+                                                                                                                                                                   to, 
+                                                                                                                                                                   m, 
+                                                                                                                                                                   lg, 
+                                                                                                                                                                   sx, 
+                                                                                                                                                                   jx, 
+                                                                                                                                                                   ch, 
+                                                                                                                                                                   lv, 
+                                                                                                                                                                   snap >>
                                                                                                                                               ELSE /\ IF m[self].t \in {"H", "D"}
                                                                                                                                                          THEN /\ obs' = LogO(obs \o [q \in 1..OpenCount(obs, 1, 0) |-> RetEv(ThOf(self))],
                                                                                                                                                                              Ev("panic", ThOf(self), "", "", "", 0))
@@ -3361,7 +3324,7 @@ DDisp(self) == /\ pc[self] = "DDisp"
                                                                                                                                                                                                                                      sx, 
                                                                                                                                                                                                                                      ch >>
                                                                                                                                                                                                      ELSE /\ Assert(FALSE, 
-                                                                                                                                                                                                                    "Failure of assertion at line 1170, column 5.")
+                                                                                                                                                                                                                    "Failure of assertion at line 1192, column 5.")
                                                                                                                                                                                                           /\ pc' = [pc EXCEPT ![self] = "Ret"]
                                                                                                                                                                                                           /\ UNCHANGED << st, 
                                                                                                                                                                                                                           tasks, 
@@ -4371,6 +4334,42 @@ TK5(self) == /\ pc[self] = "TK5"
                              ntop, panicked, started, mon, done, stack, fr, to, 
                              m, lg, sx, jx, ch, lv, snap, ka, ca, gx, ex, nx, 
                              fx, bx, bc, tx, ta, tc, ft, act, sj, tk >>
+
+tk_src_end_st(self) == /\ pc[self] = "tk_src_end_st"
+                       /\ st' = [st EXCEPT ![to[self].n][to[self].s].end = TRUE]
+                       /\ pc' = [pc EXCEPT ![self] = "TK6a"]
+                       /\ UNCHANGED << ci, nd, sk, pi, fi, tasks, now, obs, 
+                                       script, ntop, panicked, started, mon, 
+                                       done, stack, fr, to, m, lg, sx, jx, ch, 
+                                       lv, snap, ka, ca, gx, ex, nx, fx, bx, 
+                                       bc, tx, ta, tc, ft, act, sj, tk >>
+
+TK6a(self) == /\ pc[self] = "TK6a"
+              /\ /\ fr' = [fr EXCEPT ![self] = "S"]
+                 /\ m' = [m EXCEPT ![self] = m[self]]
+                 /\ stack' = [stack EXCEPT ![self] = << [ procedure |->  "Deliver",
+                                                          pc        |->  "TK6",
+                                                          lg        |->  lg[self],
+                                                          sx        |->  sx[self],
+                                                          jx        |->  jx[self],
+                                                          ch        |->  ch[self],
+                                                          lv        |->  lv[self],
+                                                          snap      |->  snap[self],
+                                                          fr        |->  fr[self],
+                                                          to        |->  to[self],
+                                                          m         |->  m[self] ] >>
+                                                      \o stack[self]]
+                 /\ to' = [to EXCEPT ![self] = S(to[self]).sink]
+              /\ lg' = [lg EXCEPT ![self] = FALSE]
+              /\ sx' = [sx EXCEPT ![self] = 0]
+              /\ jx' = [jx EXCEPT ![self] = 0]
+              /\ ch' = [ch EXCEPT ![self] = ""]
+              /\ lv' = [lv EXCEPT ![self] = 0]
+              /\ snap' = [snap EXCEPT ![self] = <<>>]
+              /\ pc' = [pc EXCEPT ![self] = "DStart"]
+              /\ UNCHANGED << ci, st, nd, sk, pi, fi, tasks, now, obs, script, 
+                              ntop, panicked, started, mon, done, ka, ca, gx, 
+                              ex, nx, fx, bx, bc, tx, ta, tc, ft, act, sj, tk >>
 
 TK6(self) == /\ pc[self] = "TK6"
              /\ pc' = [pc EXCEPT ![self] = "Ret"]
@@ -6082,11 +6081,12 @@ Deliver(self) == DStart(self) \/ DDisp(self) \/ K1(self) \/ K1a(self)
                     \/ tk_data(self) \/ tk_max(self) \/ tk_end_ld(self)
                     \/ tk_end_st(self) \/ tk_up_ld(self)
                     \/ tk_up_term(self) \/ tk_sink_term(self) \/ TK5(self)
-                    \/ TK6(self) \/ TK7(self) \/ TK8(self) \/ TK9(self)
-                    \/ SK1(self) \/ SK2(self) \/ SK3(self) \/ SK4(self)
-                    \/ SK6(self) \/ SK5(self) \/ SK7(self) \/ SK8(self)
-                    \/ MG1(self) \/ MG2(self) \/ MG8a(self) \/ MG8(self)
-                    \/ MG9(self) \/ mg_late_ld(self) \/ mg_late_ret(self)
+                    \/ tk_src_end_st(self) \/ TK6a(self) \/ TK6(self)
+                    \/ TK7(self) \/ TK8(self) \/ TK9(self) \/ SK1(self)
+                    \/ SK2(self) \/ SK3(self) \/ SK4(self) \/ SK6(self)
+                    \/ SK5(self) \/ SK7(self) \/ SK8(self) \/ MG1(self)
+                    \/ MG2(self) \/ MG8a(self) \/ MG8(self) \/ MG9(self)
+                    \/ mg_late_ld(self) \/ mg_late_ret(self)
                     \/ mg_tb_st(self) \/ mg_start_fa(self)
                     \/ mg_greet(self) \/ MG3(self) \/ mg_data(self)
                     \/ MG4(self) \/ mg_ended_st(self) \/ mg_sib_ld(self)
@@ -7024,7 +7024,7 @@ Finished == done \/ panicked
 (* merge/combine/take on the member-thread paths, plus the probe sink's handler and thread start).   *)
 AccessLabels == {"th_start", "K1",
                  "mg_late_ld", "mg_tb_st", "mg_start_fa", "cb_tb_st", "cb_start_fs",
-                 "tk_taken_fu", "tk_end_ld", "tk_end_st", "tk_up_ld",
+                 "tk_taken_fu", "tk_end_ld", "tk_end_st", "tk_up_ld", "tk_src_end_st",
                  "mg_tb_clr", "mg_end_fa", "mg_ended_st", "mg_sib_ld", "mg_tk_ended_st", "MG8",
                  "cb_vals_ld", "cb_rcu_ld", "cb_rcu_cas", "cb_ndata_fs", "cb_ndata_ld", "cb_emit_ld",
                  "cb_end_fs"}
